@@ -153,7 +153,7 @@ theorem dry_envAgree (env : PEnv) (orc : EvalOracles) (b1 b2 : Bool) (p : Bytes)
 /-- The lines of a file are the same with and without `-d`. -/
 theorem dry_lines_eq (env : PEnv) (orc : EvalOracles) (expr : Expr) (D n c : Bytes) (b1 b2 : Bool) :
     exit0_lines { env with dryrun := b1 } orc expr D n c = exit0_lines { env with dryrun := b2 } orc expr D n c := by
-  unfold exit0_lines verdict
+  unfold exit0_lines verdict fileMs
   cases pathjoin PATH_MAX D n with
   | none => rfl
   | some p =>
@@ -175,7 +175,7 @@ theorem dry_lines_eq (env : PEnv) (orc : EvalOracles) (expr : Expr) (D n c : Byt
         | error => rfl
         | «nomatch» => rfl
         | «match» =>
-          dsimp only
+          simp only [evVerdict]
           have hi := dry_matchesInterpolate_sim (e1 := msgEnv { env with dryrun := b1 } orc p)
             (e2 := msgEnv { env with dryrun := b2 } orc p) rfl hsim.1
             (partMsg (parseMessage c) ((getAttachments (parseMessage c)).getD []))
@@ -227,11 +227,12 @@ theorem dry_refDirs_eq (env : PEnv) (orc : EvalOracles) (dirs : List (Bytes × E
   dsimp only
   simp only [dry_lines_eq env orc _ _ _ _ b1 b2]
 
-/-- **The dry run predicts the real run** (fault-free plan, maildir mode, rules without discard, no message
-visited twice): if both runs end with exit status 0, the log of the dry run - the `-> destination` lines, in
+/-- **The dry run predicts the real run** (fault-free plan, maildir mode, rules without discard that ask the operating
+system nothing, no message visited twice): if both runs end with exit status 0, the log of the dry run - the `-> destination` lines, in
 order - is the log of the real run, and both are the reference log. -/
 theorem dry_predicts_real (env : PEnv) (orc : EvalOracles) (confOk : Bool) (conf : List ConfBlock) (files : Files) (input : Bytes)
     (w : World) (hm : env.stdinMode = false) (hsyn : env.syntaxOnly = false) (hdry : env.dryrun = false)
+    (hfree : ∀ b ∈ conf, asksFree b.expr = true)
     (hnd : ∀ b ∈ conf, WholeNoDiscard env orc b.expr) (hreg : WholeReg w files)
     (hG : exit0_Good ⟨env, orc, exit0_dirsOf conf, files, w⟩)
     (hreal : (runPlan Plan.none (mainP env orc confOk conf files input) w 0 []).1.1 = 0)
@@ -240,11 +241,11 @@ theorem dry_predicts_real (env : PEnv) (orc : EvalOracles) (confOk : Bool) (conf
       (runPlan Plan.none (mainP env orc confOk conf files input) w 0 []).1.2.log ∧
     (runPlan Plan.none (mainP env orc confOk conf files input) w 0 []).1.2.log =
       exit0_refDirs ⟨env, orc, exit0_dirsOf conf, files, w⟩ (exit0_dirsOf conf) := by
-  have hR := (exit0_main_exit0 env orc confOk conf files input w Plan.none hm hsyn hdry hnd hreg hG World.singleFault_none hreal).2
+  have hR := (exit0_main_exit0 env orc confOk conf files input w Plan.none hm hsyn hdry hfree hnd hreg hG World.singleFault_none hreal).2
   have heD := exit0_status_zero { env with dryrun := true } orc confOk conf files input w Plan.none hm hdryr
   have hinvD := exit0_main_runPlan ⟨{ env with dryrun := true }, orc, exit0_dirsOf conf, files, w⟩
     (dry_good env orc _ files w hG) hm hsyn confOk conf input rfl
-    (fun b _ => exit0_step_dry _ orc b.expr rfl) hreg Plan.none World.singleFault_none heD
+    (fun b hb => exit0_step_dry _ orc b.expr (hfree b hb) rfl) hreg Plan.none World.singleFault_none heD
   have hD := (exit0_final (dry_good env orc _ files w hG) hreg hinvD).2
   refine ⟨?_, hR⟩
   rw [hR]
